@@ -67,10 +67,16 @@ func selfTest(ctx *core.Ctx) error {
 		{"parents", func(r *record) { r.Nodes[r.Nodes[inner].K[0]-1].P = r.Root }},
 		{"fanout", func(r *record) { r.Fan = len(r.Nodes[inner].K) - 1 }},
 		{"eff_m", func(r *record) {
-			if r.Nodes[leaf].A.M == "A" {
-				r.Nodes[leaf].A.M = "B"
-			} else {
+			given := "-"
+			for _, o := range r.Prog {
+				if o.Op == "page" && o.ID == r.Nodes[leaf].ID {
+					given = o.A.M
+				}
+			}
+			if given == "B2" {
 				r.Nodes[leaf].A.M = "A"
+			} else {
+				r.Nodes[leaf].A.M = "B2"
 			}
 		}},
 		{"eff_r", func(r *record) { r.Nodes[inner].A.R = "270" }},
